@@ -21,7 +21,7 @@ def lattice(tier: str, what: str = "c01") -> List[Cfg]:
     cfgs: List[Cfg] = []
     if tier == "quick":
         stats_list = [(), ("a", "ab")]
-        packs = ["base", "norm+sym", "inf2", "rfac", "ver:a,b", "sfac", "norm+atomlast"]
+        packs = ["base", "norm+sym", "inf2", "rfac", "rfac2", "ver:a,b", "sfac", "norm+atomlast", "oneway+inf1", "rfswap"]
         for c in classes:
             for st in stats_list:
                 for pk in packs:
@@ -40,7 +40,7 @@ def lattice(tier: str, what: str = "c01") -> List[Cfg]:
         packs = [
             "base", "norm", "sym", "norm+sym", "inf1", "inf2", "inf2r", "norm+inf2+sym", "rfac", "sfac",
             "two", "noinit", "dropempty", "ver:a,b", "ver:e", "verfirst:a,ab", "rfac+sym", "inf1+rfac",
-            "ver:a,b+sym", "ver:b+inf2", "norm+two", "sfac+inf1", "norm+atomlast", "atomlast+sym",
+            "ver:a,b+sym", "ver:b+inf2", "norm+two", "sfac+inf1", "norm+atomlast", "atomlast+sym", "rfac2", "rfac2+sym", "oneway", "oneway+inf1", "onewayexp+inf1+sym", "oneway+inf2+iter", "rfswap", "norm+rfswap", "rfswap+sym",
         ]
         for c in classes:
             for st in stats_list:
@@ -80,6 +80,8 @@ def g_lattice(tier: str) -> List[Any]:
         for g in dg.grammars("one"):
             for db in ("RuleDB", "Forest"):
                 res.append(GCfg(g, (), "g", db))
+            # no verification strategy: no genuine specification exists, whatever is claimed is wrong
+            res.append(GCfg(g, (), "g+nover", "Forest"))
     else:
         for g in dg.grammars("one"):
             for st in ((), ("a",), ("a", "ab")):
@@ -88,6 +90,8 @@ def g_lattice(tier: str) -> List[Any]:
             res.append(GCfg(g, (), "g+split", "RuleDB"))
             res.append(GCfg(g, (), "g", "RuleDB", smallest=True))
             res.append(GCfg(g, (), "g+iter", "RuleDB"))
+            res.append(GCfg(g, (), "g+nover", "Forest"))
+            res.append(GCfg(g, (), "g+nover", "RuleDB"))
         for g in dg.grammars("two"):
             for db in ("RuleDB", "Forest", "ForestNR"):
                 res.append(GCfg(g, (), "g", db))
